@@ -453,14 +453,15 @@ func c13Differential(x *mc.Cell, role Role) {
 	ops := opsFor(o)
 	reps := collectReps(x, o)
 	for _, h := range reps {
-		for oi := range ops {
+		for oi2 := 0; oi2 < 2*len(ops); oi2++ {
 			if x.TimeUp() {
 				x.Cap("c13Differential: time cap")
 				return
 			}
-			h, oi := h, oi
+			// the v2 record carries an empty stage log (written by recent v1 builds) or none at all (older records)
+			h, oi, stagesMode := h, oi2%len(ops), 1-oi2/len(ops)
 			x.Executions++
-			rep := map[string]any{"role": RoleNames[role], "history": histNames(h, func(i int) string { return Alphabet[ops[i]].Name }), "op": Alphabet[ops[oi]].Name}
+			rep := map[string]any{"role": RoleNames[role], "history": histNames(h, func(i int) string { return Alphabet[ops[i]].Name }), "op": Alphabet[ops[oi]].Name, "v2-stages": []string{"null", "empty"}[stagesMode]}
 			pv, stack := mc.Bubble(x.T, func() {
 				nat, err := NewSys(nil)
 				if err != nil {
@@ -493,7 +494,7 @@ func c13Differential(x *mc.Cell, role Role) {
 				rec := v2Rec{Self: cur.Self, Initiator: cur.Chid.Initiator, Responder: cur.Chid.Responder, Sender: cur.Sender, Recipient: cur.Rcpt, TID: uint64(cur.TID),
 					Status: st, TotalSize: cur.TotalSize, Queued: cur.Queued, Sent: cur.Sent, Received: cur.Received, Message: cur.Message,
 					Vouchers: natSt.Vouchers(), Results: natSt.VoucherResults(), RIdx: cur.RIdx, QIdx: cur.QIdx, SIdx: cur.SIdx, Limit: cur.Limit, ReqFin: cur.ReqFin,
-					StagesMode: 1, Selector: doubles.AllSelector()}
+					StagesMode: stagesMode, Selector: doubles.AllSelector()}
 				mig, err := NewSys(doubles.NewRecDSFrom(v2Image([]v2Rec{rec})))
 				if err != nil {
 					x.Violate("C13", "differential;start-error", err.Error(), rep)
